@@ -133,13 +133,13 @@ pub fn plan(prop: &str, tier: &str, polars: bool, scale: f64) -> Plan {
                     name: "seeded/pipelines",
                     stream_id: 1,
                     cfg: GenCfg { max_len, max_depth: 6, polars, mix: Mix::Pipelines },
-                    runs: n(200_000, 4_000_000),
+                    runs: n(1_500_000, 15_000_000),
                 },
                 Source::Seeded {
                     name: "seeded/sinks",
                     stream_id: 2,
                     cfg: GenCfg { max_len, max_depth: 3, polars, mix: Mix::Sinks },
-                    runs: n(40_000, 500_000),
+                    runs: n(200_000, 2_000_000),
                 },
             ],
         },
@@ -158,13 +158,13 @@ pub fn plan(prop: &str, tier: &str, polars: bool, scale: f64) -> Plan {
                     name: "seeded/sinks",
                     stream_id: 2,
                     cfg: GenCfg { max_len, max_depth: 3, polars, mix: Mix::Sinks },
-                    runs: n(150_000, 3_000_000),
+                    runs: n(1_000_000, 10_000_000),
                 },
                 Source::Seeded {
                     name: "seeded/pipelines",
                     stream_id: 1,
                     cfg: GenCfg { max_len, max_depth: 6, polars, mix: Mix::Pipelines },
-                    runs: n(40_000, 500_000),
+                    runs: n(200_000, 2_000_000),
                 },
             ],
         },
